@@ -140,7 +140,7 @@ fn step(t: &mut Twins, pm: DMode, sm: DMode, driver: Arc<dyn Driver>, rep: &mut 
     // overlaps actually achieved (evidence that the schedule driver produced concurrency)
     if !out.overflow {
         let mut f = Vec::new();
-        let opts = crate::oracle::EOpts { expect_tl: pm.runs_tl(), caller_thread: out.caller, outer_mode: pm.outer() , top_mult: 1, partial: false};
+        let opts = crate::oracle::EOpts { expect_tl: pm.runs_tl(), caller_thread: out.caller, outer_mode: pm.outer() , top_mult: 1, partial: false, tl_mult: None};
         let st = crate::oracle::e_oracle(&t.p.plan, &out.events, &opts, &mut f);
         est.0 += st.unordered_overlaps;
         est.1 += st.unordered_pairs;
@@ -298,6 +298,105 @@ fn case(rng: &mut Rng, pools: &mut Pools, rep: &mut Report, case_no: u64, dump: 
     }
 }
 
+/// The async dispatcher as the parallel twin: dispatch(), optionally a look at the dispatcher,
+/// wait() - against dispatch_seq + dispatch_thread_local of the sequential twin.
+#[cfg(feature = "parallel")]
+fn case_async(rng: &mut Rng, pools: &mut Pools, rep: &mut Report, case_no: u64) {
+    use crate::sys::instantiate;
+    let profile = *rng.pick(&PROFILES);
+    let mut c = cfg_for(profile, rng);
+    c.p_static = c.p_static.max(25);
+    c.tl = (0, 3);
+    c.n = (c.n.0.min(2), c.n.1.min(16));
+    if c.slots.len() > 8 {
+        let k = rng.range(3, 8);
+        let all = c.slots.clone();
+        c.slots = pick_slots(rng, &all, k);
+    }
+    let plan = gen_with(rng, &c);
+    let pool_size = *rng.pick(&POOL_SIZES);
+    let pool = pools.get(pool_size);
+    rep.evaluations += 1;
+    rep.metric("async_twin_cases", 1);
+    let one = pools.get(1);
+    let Ok(mut s) = build(&plan, Some(&one), 1, 16) else {
+        rep.inconclusive += 1;
+        return;
+    };
+    s.ctx.inner_seq.store(true, SeqCst);
+    let ctx = Ctx::new(plan.n_uids().max(1), 16);
+    let Ok(b) = std::panic::catch_unwind(std::panic::AssertUnwindSafe(|| instantiate(&plan, &ctx, Some(&pool)))) else {
+        rep.inconclusive += 1;
+        return;
+    };
+    let mut ad = b.build_async(full_world());
+    ctx.set_mode(Mode::Quiet);
+    ctx.arm(Arc::new(Jitter { seed: rng.next(), level: 0 }));
+    let rounds = rng.range(2, 5);
+    let mut hist = Vec::new();
+    for r in 0..rounds {
+        ad.dispatch();
+        let peek = rng.below(6);
+        match peek {
+            0 => {
+                let _ = ad.running();
+                hist.push("dispatch; running(); wait");
+            }
+            1 => {
+                let t = std::time::Instant::now();
+                while ad.running() && t.elapsed() < Duration::from_secs(8) {
+                    std::thread::yield_now();
+                }
+                hist.push("dispatch; while running() {}; wait");
+            }
+            2 => {
+                let _ = ad.world();
+                hist.push("dispatch; world(); wait");
+            }
+            3 => {
+                ad.wait_without_tl();
+                hist.push("dispatch; wait_without_tl(); wait");
+            }
+            _ => hist.push("dispatch; wait"),
+        }
+        ad.wait();
+        if let Some(p) = s.run_quiet(DMode::SeqTl) {
+            rep.notes.push(format!("case {}: sequential twin panicked: {}", case_no, p));
+            return;
+        }
+        let (wp, ws) = (world_digest(ad.world()), world_digest(&s.world));
+        let (op, os) = (ctx.obs_digest(), s.ctx.obs_digest());
+        if wp != ws || op != os {
+            let mut d = Vec::new();
+            for ((sl, a), (_, b)) in world_table(ad.world()).iter().zip(world_table(&s.world).iter()) {
+                if a != b {
+                    d.push(format!("{}: async {:x?} vs sequential {:x?}", sl.label(), a, b));
+                }
+            }
+            let (ot, st) = (ctx.obs_table(), s.ctx.obs_table());
+            for u in 0..ot.len() {
+                if ot[u] != st[u] {
+                    d.push(format!("state of u{}: async {:x} vs sequential {:x}", u, ot[u], st[u]));
+                }
+            }
+            d.truncate(6);
+            rep.violation(
+                "async_twin_differs",
+                &format!("after round {} of the history {:?} on the async dispatcher (pool {}) world/system state differs from dispatch_seq + dispatch_thread_local: {}", r + 1, hist, pool_size, d.join("; ")),
+                case_no,
+                J::obj().set("plan", plan.to_json()).set("pool", pool_size),
+            );
+            return;
+        }
+        rep.metric("twin_dispatches", 1);
+    }
+    ctx.set_mode(Mode::Build);
+    let _ = ctx.take_violations();
+    if writers_per_slot(&plan) >= 2 && !plan.tls().is_empty() {
+        rep.nontrivial(mix(plan.hash(), 0xa51c));
+    }
+}
+
 /// Exhaustive scripted interleavings of one small stage: every linear extension of the
 /// fetch/body/release steps of the systems the stage runs side by side.
 fn exhaustive_case(rng: &mut Rng, pools: &mut Pools, rep: &mut Report, case_no: u64, limit: u64) {
@@ -426,6 +525,11 @@ pub fn run(args: &Args) -> i32 {
         }
         let mut rng = Rng::new(args.case_seed(c));
         let thorough = args.thorough;
+        #[cfg(feature = "parallel")]
+        if c % 6 == 5 && c < 1_000_000 && !dump {
+            guard_case(&mut rep, c, |rep| case_async(&mut rng, &mut pools, rep, c));
+            continue;
+        }
         guard_case(&mut rep, c, |rep| {
             if c >= 1_000_000 {
                 exhaustive_case(&mut rng, &mut pools, rep, c, if thorough { 400_000 } else { 2_000 });
